@@ -465,6 +465,128 @@ def rule_g(prog, chk):
     chk.floor("C03g", n, 8)
 
 
+def rule_g2(prog, chk):
+    """C03g2 - the converse kind: a local matrix DIMENSIONED by the length of the list of requested variables is subscripted with
+    ranks in that list, never with the variable numbers read from it (`mat0(nvar1, nvar2)` filled with `mat0.setValue(ivars[i],
+    jvars[j], ..)` is written and read out of range as soon as the requested variable is not number 0)."""
+    n = 0
+    for f in sorted(prog.funcs, key=lambda x: (x.file, x.line)):
+        if f.body is None or "src/Covariances/" not in f.file:
+            continue
+        lists = {p["d"] for p in f.params if "VectorInt" in p["t"] and "var" in p["n"].lower()} | \
+                {x["d"] for x in f.walk() if x["k"] == "VarDecl" and "VectorInt" in (x.get("t") or "") and "var" in x["n"].lower()}
+        if not lists:
+            continue
+
+        def from_size(e, depth=0):
+            while e is not None and e["k"] == "Cast":
+                e = e["c"][0]
+            if e is None or depth > 3:
+                return False
+            if e["k"] == "MCall" and (e.get("callee") or "").split("::")[-1] == "size":
+                o = call_obj(e)
+                return o is not None and o["k"] == "DeclRefExpr" and o.get("d") in lists
+            if e["k"] == "DeclRefExpr" and e.get("dk") == "var":
+                d = single_def(f, e["d"])
+                return d is not None and d is not e and from_size(d, depth + 1)
+            return False
+        mats = set()
+        varnum = set()
+        for x in f.walk():
+            if x["k"] == "VarDecl" and x.get("c") and x["c"][0] is not None:
+                init = x["c"][0]
+                if init["k"] == "Construct" and "Matrix" in (x.get("t") or ""):
+                    a = [y for y in call_args(init) if y is not None and y["k"] != "DefaultArg"]
+                    if a and all(from_size(y) for y in a[:2]):
+                        mats.add(x["d"])
+                e = init
+                while e is not None and e["k"] == "Cast":
+                    e = e["c"][0]
+                if e is not None and (e["k"] == "Index" or (e["k"] == "OpCall" and e.get("op") == "[]")) and e["c"][0] is not None and \
+                        e["c"][0]["k"] == "DeclRefExpr" and e["c"][0].get("d") in lists:
+                    varnum.add(x["d"])
+        if not mats:
+            continue
+        for c in f.calls():
+            if c["k"] != "MCall" or (c.get("callee") or "").split("::")[-1] not in ("setValue", "getValue", "updValue", "addValue"):
+                continue
+            o = call_obj(c)
+            if o is None or o["k"] != "DeclRefExpr" or o.get("d") not in mats:
+                continue
+            for i, a in enumerate(call_args(c)[:2]):
+                x = a
+                while x is not None and x["k"] == "Cast":
+                    x = x["c"][0]
+                if x is None or x["k"] != "DeclRefExpr":
+                    continue
+                n += 1
+                bad = x.get("d") in varnum
+                if bad:
+                    chk.analysed(f)
+                chk.ob("C03g2", "%s: `%s` (dimensioned by the number of requested variables) is subscripted with a rank in the list" % (f.name, o["n"]), f.loc(c), not bad,
+                       detail=None if not bad else "`%s` is a variable NUMBER read from the list of requested variables; the matrix has one row / column per requested "
+                       "variable: for a request other than variable 0 the cell is outside the matrix (the value is lost, what is read back is undefined)" % x["n"],
+                       key="C03g2|%s/%d|%s.%s(%s)#%d" % (f.name, len(f.params), o["n"], c["callee"].split("::")[-1], x["n"], i), nontrivial=bad)
+    chk.floor("C03g2", n, 2)
+
+
+def rule_i(prog, chk):
+    """C03i - positions in the list of ACTIVE structures vs structure ranks (E5 kinds).  When a calculation mode carries a list of
+    active structures, a loop variable bounded by the length of that list is a POSITION in the list; the structure it designates
+    is `getActiveCovList(position)`.  Used directly as a subscript of the structures (`_covs[i]`, getCova(i)), the first
+    structures of the model are evaluated instead of the selected ones: C(0) stops being the value of C(h) at h = 0 and
+    |C(h)| may exceed it."""
+    n = 0
+    for f in sorted(prog.funcs, key=lambda x: (x.file, x.line)):
+        if f.body is None or "src/Covariances/" not in f.file:
+            continue
+        pos = set()
+        for loop in f.walk():
+            if loop["k"] == "For" and loop["c"][1] is not None:
+                for x in walk(loop["c"][1]):
+                    if x["k"] == "BinOp" and x.get("op") == "<" and x["c"][0] is not None and x["c"][0]["k"] == "DeclRefExpr":
+                        b = x["c"][1]
+                        for _ in range(3):
+                            while b is not None and b["k"] == "Cast":
+                                b = b["c"][0]
+                            if b is not None and b["k"] == "DeclRefExpr" and b.get("dk") == "var":
+                                b = single_def(f, b["d"])
+                            else:
+                                break
+                        if b is not None and any(y["k"] == "MCall" and (y.get("callee") or "").split("::")[-1] in ("getActiveCovList", "getActiveCovCount")
+                                                 for y in walk(b)):
+                            pos.add(x["c"][0]["d"])
+        if not pos:
+            continue
+        for x in f.walk():
+            idx = None
+            if x["k"] == "Index" or (x["k"] == "OpCall" and x.get("op") == "[]"):
+                base = x["c"][0]
+                if base is not None and base["k"] == "MemberExpr" and base.get("n") == "_covs":
+                    idx = x["c"][1]
+            elif x["k"] == "MCall" and (x.get("callee") or "").split("::")[-1] in ("getCova", "_getCova", "getCovAniso", "getType", "getSill"):
+                a = call_args(x)
+                idx = a[0] if a else None
+            if idx is None:
+                continue
+            while idx is not None and idx["k"] == "Cast":
+                idx = idx["c"][0]
+            if idx is None:
+                continue
+            uses_pos = idx["k"] == "DeclRefExpr" and idx.get("d") in pos
+            through = any(y["k"] == "MCall" and (y.get("callee") or "").split("::")[-1] == "getActiveCovList" for y in walk(idx))
+            if not uses_pos and not through:
+                continue
+            n += 1
+            if uses_pos:
+                chk.analysed(f)
+            chk.ob("C03i", "%s: the structure is designated through the list of active structures" % f.name, f.loc(x), not uses_pos,
+                   detail=None if not uses_pos else "`%s` is a position in the list of active structures and subscripts the structures directly: with a list "
+                   "that is not 0,1,2.. the first structures of the model are evaluated instead of the selected ones" % idx["n"],
+                   key="C03i|%s/%d|%s" % (f.name, len(f.params), show(x)[:30]), nontrivial=uses_pos)
+    chk.floor("C03i", n, 4)
+
+
 def rule_h(prog, chk):
     """C03h - the sparse covariance matrix drops negligible terms by their ABSOLUTE value: the test that decides whether a term
     eval(p1, p2, ..) is stored compares |value| with the threshold (a signed comparison removes every negative covariance:
@@ -533,6 +655,13 @@ def main(tier):
     rule_f(prog, chk)
     rule_g(prog, chk)
     rule_h(prog, chk)
+    rule_i(prog, chk)
+    rule_g2(prog, chk)
+    # C03o: the factories of a structure apply their setters in an order that keeps what was asked: a setter that converts with
+    # the current third parameter (setRanges: practical range -> scale) is not followed by the setter that replaces the parameter
+    # (rule O of C08, c08_order.py: transitive read / write sets of the setters called on one local object)
+    import c08_order
+    c08_order.rule_O(prog, chk, 6, select=lambda f: "src/Covariances/" in f.file and f.short.startswith("create"), rule="C03o")
     chk.assumptions.append("published definitions: " + "; ".join("%s = %s" % (k, v["ref"]) for k, v in sorted(PUBLISHED.items())))
     chk.assumptions.append("bounds inf Lambda_d of isotropic correlations in R^d (Matern 1960 / Schoenberg): d=1 -1, d=2 -0.4028, d=3 -0.2173, all d: 0")
     return chk.finish()
